@@ -203,7 +203,7 @@ Theorem C06_negotiate_agrees_with_lts : forall nc fu cmax r1 r2 typ kid,
   NegRefine.expressible r1 -> NegRefine.expressible r2 -> is_neg_type typ = false ->
   let cfg := NegRefine.lts_cfg nc fu cmax in
   let s := Model.run cfg (NegRefine.canon nc cfg r1 r2 typ kid) in
-  let m := session nc cmax r1 r2 [Ack; Request typ []] in
+  let m := session nc cmax (strict_query r1) r2 [Ack; Request typ []] in     (* = negotiate_strict: the LTS follows /repo 6e714d1 *)
   map NegRefine.view_o (Types.out s) = map NegRefine.view_m (n_frames (fst m) ++ snd m) /\
   NegRefine.lts_outcome s = Some (n_outcome (fst m)) /\
   Types.version s = n_version (fst m).
@@ -423,4 +423,68 @@ Proof. vm_compute. reflexivity. Qed.
 Example C06_example_unanswered_switch :
   session_t (mkCfg true true) false V1_1 0 0 2 0 (InTime, Resp 64 32 0) (Never, NoReply) [PRequest 2 []]
   = (true, (mkRes [mkMsg 2 46 []; mkMsg 2 47 [1]; mkMsg 1 72 []; mkMsg 1 72 []] Fails 1, mkPost 1 [])).
+Proof. vm_compute. reflexivity. Qed.
+
+(* ---- which replies let Connect succeed ----------------------------------------------------------
+   "(1.0.1 if the reader rejects the query as an unsupported version) … any other error reply, or a
+   refused switch, fails the connection attempt": Connect may succeed only after the EXPECTED response
+   type carrying Success — for both negotiation messages —, the one exception being ERROR_MESSAGE /
+   M_UnsupportedVersion answering the query.  An ERROR_MESSAGE that carries Success, or another
+   message type whatever status it carries, confirms nothing. *)
+
+(* the switch: confirmed by SET_PROTOCOL_VERSION_RESPONSE/Success and by nothing else *)
+Theorem switch_confirmed_only_by_expected_success : forall r, set_accepted r = true <-> expected_success r.
+Proof. exact switch_confirmed_iff. Qed.
+Print Assumptions switch_confirmed_only_by_expected_success.
+
+(* the query: the full clause
+     forall cfg cmax r1 r2, V1_0_1 < cmax -> n_outcome (negotiate cfg cmax r1 r2) = Proceeds ->
+       expected_success r1 \/ r1 = ErrMsg StatusMsgVerUnsupported
+   is FALSE of the code as it stands (get_supported = getSupportedVersion, reader.go:1149-1171):
+   ERROR_MESSAGE/Success answering the query is read as "1.0.1-only reader" as well … *)
+Theorem query_success_only_after_expected_refuted : exists cfg cmax r1 r2, V1_0_1 < cmax /\
+  n_outcome (negotiate cfg cmax r1 r2) = Proceeds /\
+  ~ (expected_success r1 \/ r1 = ErrMsg StatusMsgVerUnsupported).
+Proof. exact errmsg_success_refuted_l. Qed.
+Print Assumptions query_success_only_after_expected_refuted.
+
+(* … for every configuration and client maximum above 1.0.1: the query is the only frame, Connect
+   proceeds, the client uses 1.0.1 (witness replayed on the Go client by checks/c06.py) *)
+Theorem errmsg_success_answering_query_today : forall cfg cmax r2, V1_0_1 < cmax ->
+  negotiate cfg cmax (ErrMsg StatusSuccess) r2
+  = mkRes [mkMsg V1_1 MsgGetSupportedVersion []] Proceeds V1_0_1.
+Proof. exact errmsg_success_query_today. Qed.
+Print Assumptions errmsg_success_answering_query_today.
+
+(* what does hold of the code as it stands: that reply is the only one beyond the two named *)
+Theorem query_answered_by_partial : forall r p, get_supported r = Some p ->
+  (exists cb mb, r = Resp cb mb StatusSuccess /\ p = (reader_ver cb, reader_ver mb)) \/
+  (r = ErrMsg StatusMsgVerUnsupported /\ p = (V1_0_1, V1_0_1)) \/
+  (r = ErrMsg StatusSuccess /\ p = (V1_0_1, V1_0_1)).
+Proof. exact query_answered_today. Qed.
+Print Assumptions query_answered_by_partial.
+
+(* the repaired function (ERROR_MESSAGE/Success answering the query treated like every other
+   ERROR_MESSAGE that is not M_UnsupportedVersion; negotiate_strict) satisfies the full clause … *)
+Theorem connect_succeeds_only_after_expected_success : forall cfg cmax r1 r2, V1_0_1 < cmax ->
+  n_outcome (negotiate_strict cfg cmax r1 r2) = Proceeds ->
+  (r1 = ErrMsg StatusMsgVerUnsupported /\
+   negotiate_strict cfg cmax r1 r2 = mkRes [mkMsg V1_1 MsgGetSupportedVersion []] Proceeds V1_0_1) \/
+  (expected_success r1 /\ (switch_needed cmax r1 = true -> expected_success r2)).
+Proof. exact strict_success_only_after_expected. Qed.
+Print Assumptions connect_succeeds_only_after_expected_success.
+
+(* … and is the function above for every other reaction *)
+Theorem repair_changes_nothing_else : forall cfg cmax r1 r2, r1 <> ErrMsg StatusSuccess ->
+  negotiate_strict cfg cmax r1 r2 = negotiate cfg cmax r1 r2.
+Proof. exact strict_same_elsewhere. Qed.
+Print Assumptions repair_changes_nothing_else.
+
+Example C06_example_errmsg_success_query :
+  negotiate cfg_today V1_1 (ErrMsg 0) (Resp 0 0 0) = mkRes [mkMsg 2 46 []] Proceeds 1 /\
+  negotiate_strict cfg_today V1_1 (ErrMsg 0) (Resp 0 0 0) = mkRes [mkMsg 2 46 []] Fails 2.
+Proof. split; vm_compute; reflexivity. Qed.
+(* ERROR_MESSAGE/Success answering the switch: fails in both *)
+Example C06_example_errmsg_success_switch :
+  negotiate cfg_today V1_1 (Resp 32 64 0) (ErrMsg 0) = mkRes [mkMsg 2 46 []; mkMsg 2 47 [2]] Fails 2.
 Proof. vm_compute. reflexivity. Qed.
